@@ -319,7 +319,8 @@ def check_props(pid):
             "axioms": sorted(axioms), "assumption_blocks": nblocks, "forbidden": bad}
 
 
-def run_case_files(pid, header, case_type, ok_fun, case_terms, shard=400, timeout=900):
+def run_case_files(pid, header, case_type, ok_fun, case_terms, shard=400, timeout=900,
+                   max_bytes=300000):
     """Evaluate the model on the cases inside Coq.
 
     Each shard file defines `cases`, computes `bad := mismatches ok cases` by
@@ -329,9 +330,17 @@ def run_case_files(pid, header, case_type, ok_fun, case_terms, shard=400, timeou
     d = scratch() / f"cases_{pid}_{len(list(scratch().glob('cases_*')))}"
     d.mkdir()
     files = []
-    for k in range(0, len(case_terms), shard):
-        chunk = case_terms[k:k + shard]
-        name = f"Cases_{pid}_{k // shard}"
+    bounds, start, size = [], 0, 0
+    for i, t in enumerate(case_terms):
+        if i > start and (i - start >= shard or size + len(t) > max_bytes):
+            bounds.append((start, i))
+            start, size = i, 0
+        size += len(t)
+    if case_terms:
+        bounds.append((start, len(case_terms)))
+    for si, (k, kend) in enumerate(bounds):
+        chunk = case_terms[k:kend]
+        name = f"Cases_{pid}_{si}"
         body = [header, "Import ListNotations.", "Open Scope float_scope.",
                 f"Definition cases : list ({case_type}) := ["]
         body.append(";\n".join(chunk))
